@@ -6,7 +6,7 @@ cd "$(dirname "$0")/.."
 S=${SCRATCH:-/root/scratch/cov.$$}
 B=$(dirname "$(find ~/.rustup/toolchains/nightly-x86_64-unknown-linux-gnu -name llvm-cov | head -1)")
 mkdir -p $S/h && cp -r harness/Cargo.toml harness/Cargo.lock harness/src harness/.cargo $S/h/
-(cd $S/h && CARGO_NET_OFFLINE=true RUSTFLAGS="-C instrument-coverage" cargo +nightly build --offline --quiet)
+(cd $S/h && LLVM_PROFILE_FILE=$S/build-%p.profraw.ignore CARGO_NET_OFFLINE=true RUSTFLAGS="-C instrument-coverage" cargo +nightly build --offline --quiet)
 git stash -q -- evidence 2>/dev/null || true
 for p in C01 C02 C03 C04 C05 C06 C07 C08 C09 C10 C11 C12 C13 C14 C15 C16 C17 C18; do
   VERIF_DUMP_OPS=$S/ops.txt ./check $p --tier quick --no-proof >/dev/null 2>&1 || true
